@@ -652,6 +652,92 @@ func c06Header(c *mc.Ctx) {
 	}
 }
 
+// c06Batched: several different objects of one kind saved back to back through a store that, like a Badger
+// transaction and the repository's own objbadger.Txn, retains the key and value slices until it commits. Every
+// object must afterwards be found under the hash of its own bytes - identical content once, different content
+// under different keys - whatever buffers the save path reuses.
+func c06Batched(c *mc.Ctx) {
+	kind := c.Choose(6)
+	n := 2 + c.Choose(2)
+	withBuf := c.Choose(2) == 1 // block / block-index saves: hand the returned scratch buffer to the next save
+	c.Shard()
+	names := []string{"commit", "table", "block", "block index", "table index", "table profile"}
+	desc := fmt.Sprintf("%d different %s objects saved back to back through a key-retaining batch store (scratch buffer reused: %v)", n, names[kind], withBuf)
+	c.Logf("%s", desc)
+	db := stores.NewBatchStore()
+	want := map[string][]byte{} // key -> decodable identity
+	var bb []byte
+	for i := 0; i < n; i++ {
+		var sum []byte
+		var err error
+		switch kind {
+		case 0:
+			enc := seedCommit(i)
+			sum, err = objects.SaveCommit(db, enc)
+			want["com/"+string(model.Hash(enc))] = enc
+		case 1:
+			enc := seedTable(i + 1)
+			sum, err = objects.SaveTable(db, enc)
+			want["tbl/"+string(model.Hash(enc))] = enc
+		case 2:
+			enc := seedBlock(i)
+			var b2 []byte
+			sum, b2, err = objects.SaveBlock(db, bb, enc)
+			if withBuf {
+				bb = b2
+			}
+			want["blk/"+string(model.Hash(enc))] = nil
+		case 3:
+			enc := seedBlockIndex(i)
+			var b2 []byte
+			sum, b2, err = objects.SaveBlockIndex(db, bb, enc)
+			if withBuf {
+				bb = b2
+			}
+			want["blkidx/"+string(model.Hash(enc))] = nil
+		case 4:
+			sum = bytes.Repeat([]byte{byte(0x31 + i)}, 16)
+			enc := seedBlock(i)
+			err = objects.SaveTableIndex(db, sum, enc)
+			want["tblidx/"+string(sum)] = nil
+		case 5:
+			sum = bytes.Repeat([]byte{byte(0x41 + i)}, 16)
+			enc := seedProfile(i % 2)
+			err = objects.SaveTableProfile(db, sum, enc)
+			want["tblsum/"+string(sum)] = enc
+		}
+		if err != nil {
+			c.Fail("batched-save", "save #%d returned %v; %s", i, err, desc)
+			return
+		}
+		_ = sum
+	}
+	if err := db.Commit(); err != nil {
+		panic(err)
+	}
+	keys := db.Inner.Keys()
+	if len(keys) != len(want) {
+		c.Fail("batched-save", "%d objects with different content were saved, the store holds %d keys %q; %s", len(want), len(keys), keys, desc)
+		return
+	}
+	for k, enc := range want {
+		raw := db.Inner.Raw(k)
+		if raw == nil {
+			c.Fail("batched-save", "no entry under %q (prefix + hash of the object's own bytes); keys are %q; %s", k, keys, desc)
+			return
+		}
+		if enc != nil && !bytes.Equal(raw, enc) {
+			c.Fail("batched-save", "the entry under %q does not hold that object's bytes; %s", k, desc)
+			return
+		}
+	}
+	c.Outcome("batched-" + names[kind])
+	c.Nontrivial(desc)
+	if c.WantSample() && kind == 0 {
+		c.Sample(desc)
+	}
+}
+
 func init() {
 	register(&mc.Check{
 		ID:    "C06",
@@ -667,6 +753,7 @@ func init() {
 			{Name: "table", Body: c06Table, Budget: map[string]time.Duration{"quick": 40 * time.Second, "thorough": 5 * time.Minute}},
 			{Name: "block-and-index", Body: c06Block, Budget: map[string]time.Duration{"quick": 40 * time.Second, "thorough": 5 * time.Minute}},
 			{Name: "profile", Body: c06Profile, Budget: map[string]time.Duration{"quick": 30 * time.Second, "thorough": 3 * time.Minute}},
+			{Name: "batched-saves", Body: c06Batched, Budget: map[string]time.Duration{"quick": 30 * time.Second, "thorough": 3 * time.Minute}},
 			{Name: "lists", Body: c06Lists, Budget: map[string]time.Duration{"quick": 30 * time.Second, "thorough": 3 * time.Minute}},
 			{Name: "packfile-header", Body: c06Header, Budget: map[string]time.Duration{"quick": 40 * time.Second, "thorough": 12 * time.Minute}},
 		},
